@@ -40,13 +40,25 @@ class World(object):
 # ----------------------------------------------------------------------------
 # Type 2
 # ----------------------------------------------------------------------------
+OVERLAPPING_ENCODINGS = [False]      # set by a harness function for one path
+
+
 def _ctl_encodings(frm):
-    """(page_addr, byte_offs, exponent) triples that express address frm"""
+    """(page_addr, byte_offs, exponent) triples that express address frm =
+    page_addr * 2**exponent + byte_offs.  By default byte_offs is smaller than
+    the page size; with OVERLAPPING_ENCODINGS also the encodings whose byte
+    offset reaches into the following pages (the only way to address e.g.
+    bytes 128..135 with 8-byte pages: page 15, offsets 8..15)"""
     out = []
     for e in range(0, 16):
         pa, bo = frm >> e, frm & ((1 << e) - 1)
         if pa <= 15 and bo <= 15:
             out.append((pa, bo, e))
+        if OVERLAPPING_ENCODINGS[0]:
+            for pa2 in range(0, 16):
+                bo2 = frm - pa2 * (1 << e)
+                if (1 << e) <= bo2 <= 15 and (pa2, bo2, e) not in out:
+                    out.append((pa2, bo2, e))
     return out
 
 
